@@ -120,7 +120,7 @@ def handle (engine : String) (args : List String) : String :=
   | "read", [hex, sizes] =>
     if !sizes.startsWith "sizes:" then "bad-op" else
     match Proto.unhex hex, parseSizes (sizes.drop 6).toString with
-    | some bs, some ms => answerRead ms bs.toArray
+    | some bs, some ms => if ms.bounded then answerRead ms bs.toArray else "bad-op"
     | _, _ => "bad-op"
   | _, _ => "bad-op"
 
